@@ -147,6 +147,12 @@ func run(prop string, plan Plan, tier string) int {
 		}
 	}
 	evPath := filepath.Join(root, "evidence", prop+".json")
+	altRepo := os.Getenv("VERIF_REPO") != "" && os.Getenv("VERIF_REPO") != "/repo"
+	if altRepo {
+		// sensitivity runs against a scratch worktree must not overwrite the
+		// evidence of the real tree
+		evPath = filepath.Join(runDir, "evidence-alt.json")
+	}
 	_ = os.MkdirAll(filepath.Dir(evPath), 0o755)
 
 	bins := map[bool]string{}
@@ -251,6 +257,9 @@ func run(prop string, plan Plan, tier string) int {
 	infra := false
 	var violations []string
 	persistDir := filepath.Join(root, "replays", prop)
+	if os.Getenv("VERIF_REPO") != "" && os.Getenv("VERIF_REPO") != "/repo" {
+		persistDir = filepath.Join(root, "replays", "alt", prop)
+	}
 	shown := 0
 	for _, r := range results {
 		if r.exit == 0 {
